@@ -278,7 +278,7 @@ func ZZ_C05_A2_edit_stake_cannot_redirect_funds() {
 // neighbouring transactions look like (a transaction that fails for another reason after its
 // signature was queued must not shift the verdicts of the ones behind it).
 //
-//zz:harness mode=int unwind=80 maxpaths=200000 timebudget=2400 replay=model param.txs@quick=3
+//zz:harness mode=int unwind=80 maxpaths=200000 timebudget=2400 replay=model param.txs@quick=3 param.txs@thorough=4
 //zz:reach A1.block.executed A1.block.rejected-for-signature
 func ZZ_C05_A1_block_signature_verdicts_stay_with_their_transaction() {
 	// balances are fixed and ample: the quantifier here is over signatures and signers, not money
